@@ -136,6 +136,15 @@ def run_property(a):
                             known_lines.append(line)
                     else:
                         unknown_fails.append(f)
+                if unknown_fails and a.trace:
+                    import replay
+                    tr = run.run_group(run.tier_adjust(g, tier), woven, os.path.join(scratch, 'trace'), want_trace=True)
+                    for o in tr.get('obligations', []):
+                        if o['status'] == 'FAILURE' and not (o['desc'] or '').startswith('VG_CANARY'):
+                            print('--- %s: %s (%s:%s)' % (o['name'], o['desc'], o['file'], o['line']))
+                            for l in replay.trace_excerpt(o.get('trace'), 45):
+                                print('     ' + l)
+                    continue
                 if unknown_fails:
                     import replay
                     path, found = replay.refute_and_replay(pid, run.tier_adjust(g, tier), r, unknown_fails, woven, scratch)
